@@ -167,17 +167,23 @@ class Ctx:
         )
 
     # ---------------------------------------------------------------- lean
-    def gen_tables(self):
+    def gen_tables(self, needs=None):
+        """regenerate Generated/*.lean; `needs` = names of the generators this property depends on (None = all)"""
         sys.path.insert(0, os.path.join(VERIF, "harness"))
         import gen_tables
 
         try:
             with Lake():
                 self.gen_info = gen_tables.main()
-            return True
         except Exception as e:  # a table that can no longer be read is a broken obligation, not a crash
             self.obligation("gen_tables", "translator", False, "%s\n%s" % (e, traceback.format_exc()))
             return False
+        ok = True
+        for name, err in (self.gen_info.get("failed") or {}).items():
+            if needs is None or name in needs:
+                ok = False
+                self.obligation("gen_tables:" + name, "translator", False, err)
+        return ok
 
     def build(self, targets, name=None, timeout=1500):
         """lake build the given targets; a failure is recorded as a broken obligation named after the target"""
